@@ -9,9 +9,10 @@ import numpy as np
 import pandas as pd
 
 from common import R
+from common import all_pre_build as pre_build  # noqa: F401  (regenerates Generated/GeoWiring.lean — translate_geo.py — from the tested tree)
 
 LEAN_MODULES = ["PyomaVerif.Props.C19", "PyomaVerif.Props.C19Geo2", "PyomaVerif.Props.C19Plot", "PyomaVerif.Mutants.C19",
-                "PyomaVerif.Mutants.C19Geo2"]
+                "PyomaVerif.Mutants.C19Geo2", "PyomaVerif.Props.WiringGeo"]
 THEOREMS = [
     "PV.C19.C19_flatten_single",
     "PV.C19.C19_flatten_multi",
@@ -76,6 +77,22 @@ THEOREMS = [
     "PV.C19M.sign_on_coord_displace_fails",
     "PV.C19M.scale_twice_fails",
     "PV.C19M.table_order_arrows_fails",
+    # geometry defined from a file (clause 1): obligations over the source + the executed model of the entry points
+    "PV.C19.C19_by_file_wiring",
+    "PV.C19.C19_by_file_reads_path",
+    "PV.C19.C19_by_file_same_as_def_geo",
+    "PV.C19.C19_by_file_other_raises",
+    "PV.C19.C19_def_geo_wiring",
+    "PV.C19.C19_by_file_covers_result",
+    "PV.C19.C19_by_file_geo1",
+    "PV.C19.C19_by_file_geo1_ok_iff",
+    "PV.C19.C19_by_file_reject_iff_geo1",
+    "PV.C19.C19_by_file_zero_based_geo1",
+    "PV.C19.astypeFloat_numeric",
+    "PV.C19.C19_by_file_geo2",
+    "PV.C19.C19_by_file_geo2_error",
+    "PV.C19.C19_by_file_zero_based_geo2",
+    "PV.C19.C19_by_file_other",
 ]
 RULE = (
     "correspondence: generated sheet dictionaries (1..12 sensor names, single setup or 2..4 setups with 1..3 references, "
@@ -88,7 +105,9 @@ RULE = (
     "held by the Agg artists (every argument form, scaleF in {0, 0.5, 1, 2, 5, 10, -1.5}, colour fixed or 'cmap', background present "
     "or absent, shapes of another length and single table faults; 1e-11). oracle: the statement with plain dict look-ups on the "
     "generating spec, plus Agg artists of plot_mode_geo1 / plot_mode_geo2_mpl; every function is also used twice on the "
-    "caller's own (un-copied) tables, geometry 1 and 2 are defined from shared tables on two setup objects, and the caller's "
+    "caller's own (un-copied) tables; def_geo1_by_file / def_geo2_by_file / _def_geo_by_file with read_excel_file replaced by a "
+    "function that hands over the generated sheet dictionary (valid sets, every single fault, INFO sheet, another geo_type) "
+    "against the model's defGeoByFile, field by field, plus the path and keywords the reader received; geometry 1 and 2 are defined from shared tables on two setup objects, and the caller's "
     "tables / arrays are monitored for modification. distinct = distinct (function, shape/"
     "corruption/form) classes"
 )
@@ -249,6 +268,7 @@ WHY_MSG = {
     "cstrCols": "constraints columns names must correspond",
     "cstrRows": "constraints names (index column) must be the same",
     "mapUnknown": "could not convert string to float",
+    "invalidType": "Invalid geometry type",
 }
 
 
@@ -949,6 +969,102 @@ def corr_defgeo(ctx):
         ctx.count(f"defgeo{which}_{tag}_{model.get('err', 'ok')}")
 
 
+# ----------------------------------------------------------------------------- geometry from a file
+BYFILE_PATH = "geometry/template.xlsx"
+
+
+def call_by_file(S, which, fd, ref_ind, kw=None, geo_type=None):
+    """def_geo1_by_file / def_geo2_by_file (or `_def_geo_by_file(geo_type, ...)`) on a new setup object, with
+    `read_excel_file` as imported by support/geometry/mixin.py replaced by a function handing over the sheet dictionary
+    `fd` (openpyxl is absent; the frames are what read_excel(index_col=0) delivers).
+    -> (fields of the stored object, what the reader received, the OTHER geometry attribute)"""
+    import pyoma2.support.geometry.mixin as mixin
+
+    seen = {"calls": 0}
+
+    def fake(path, **k):
+        seen["calls"] += 1
+        seen["path"], seen["kw"] = path, k
+        return dict(fd)
+
+    orig = mixin.read_excel_file
+    mixin.read_excel_file = fake
+    try:
+        s = S()
+        if ref_ind is not None:
+            s.ref_ind = ref_ind
+        kw = kw or {}
+        if geo_type is not None:
+            s._def_geo_by_file(geo_type, BYFILE_PATH, **kw)
+        elif which == 1:
+            s.def_geo1_by_file(BYFILE_PATH, **kw)
+        else:
+            s.def_geo2_by_file(BYFILE_PATH, **kw)
+    finally:
+        mixin.read_excel_file = orig
+    if which == 1:
+        g, other = s.geo1, s.geo2
+        out = (g.sens_names, g.sens_coord, g.sens_dir, g.sens_lines, g.bg_nodes, g.bg_lines, g.bg_surf)
+    else:
+        g, other = s.geo2, s.geo1
+        out = (g.sens_names, g.pts_coord, g.sens_map, g.cstrn, g.sens_sign, g.sens_lines, g.sens_surf, g.bg_nodes, g.bg_lines, g.bg_surf)
+    return out, seen, other
+
+
+def _distinct_index_sheets(spec, rng):
+    """geo2: line and surface sheets both present and different (so that one taken for the other is seen)"""
+    spec["opt"]["sensors lines"] = gen_idx_sheet(rng, spec["P"], 2, maxrows=3)
+    spec["opt"]["sensors surfaces"] = gen_idx_sheet(rng, spec["P"], 3, maxrows=4)
+
+
+def corr_by_file(ctx):
+    """the file entry points against the model's defGeoByFile: same exception (class and check) or the same stored
+    object field by field; the reader is called once with the path and exactly the caller's keywords; the other
+    geometry attribute is left alone."""
+    rng = ctx.rng
+    S = _setup_cls()
+    has_private = hasattr(S, "_def_geo_by_file")
+    for it in range(ctx.n(70, 900)):
+        which = 1 + it % 2
+        spec = (gen_geo1 if which == 1 else gen_geo2)(rng)
+        if which == 2 and it % 4 == 1:
+            _distinct_index_sheets(spec, rng)
+        build, corrupt, cmpf, tags = (build_fd1, corrupt1, cmp_geo1, CORR1) if which == 1 else (build_fd2, corrupt2, cmp_geo2, CORR2)
+        cases = [("valid", spec, None)]
+        tg = tags[(it // 2) % len(tags)]
+        cs = corrupt(spec, tg, rng)
+        if cs is not None:
+            cases.append((tg, cs, None))
+        c = rng.random()
+        if c < 0.15 and has_private:
+            cases.append(("other_geo_type", spec, rng.choice(["geo3", "GEO1", "", "geo"])))
+        elif c < 0.3 and has_private:
+            cases.append(("private_entry", spec, f"geo{which}"))
+        elif c < 0.4 and which == 2:
+            s2 = copy.deepcopy(spec)  # a string among the point coordinates: .astype(float) refuses it
+            s2["pts"][rng.randrange(len(s2["pts"]))][rng.randrange(3)] = "u"
+            cases.append(("pts_string", s2, None))
+        for tag, sp, gt in cases:
+            fd = build(sp)
+            kw = rng.choice([{}, {}, {"sheet_name": None}, {"engine": "openpyxl", "index_col": 0}])
+            inp = {"geo_type": gt if gt is not None else f"geo{which}", "fd": fd_json(fd), "ref_ind": sp["ref_ind"]}
+            model = ctx.model("c19_by_file", **inp)
+            seen = {}
+
+            def call():
+                out, sn, other = call_by_file(S, which, fd, sp["ref_ind"], kw, gt)
+                seen.update(sn, other=other)
+                return out
+
+            res = run(call)
+            ok = cmpf(model, res)
+            if ok and res[0]:
+                ok = model.get("kind") == f"geo{which}" and seen["calls"] == 1 and seen["path"] == BYFILE_PATH and seen["kw"] == kw and seen["other"] is None
+            ctx.corr(f"def_geo{which}_by_file", ok, {**inp, "kw": sorted(kw)}, model, summarize(res),
+                     (tag, len(sp["flat"]), sp["ref_ind"] is None, tuple(sorted(sp["opt"])), model.get("err", "ok"), model.get("why")))
+            ctx.count(f"byfile{which}_{tag}_{model.get('err', 'ok')}")
+
+
 def gen_mapcase(rng):
     """a checked geometry-2 (names, mapping without NaN, constraint frame over all names or None,
     coordinates, sign) and a mode shape"""
@@ -1148,6 +1264,7 @@ def correspondence(ctx):
     corr_geo(ctx, gen, 1)
     corr_geo(ctx, gen, 2)
     corr_defgeo(ctx)
+    corr_by_file(ctx)
     corr_mapphi(ctx, gen)
     corr_plot(ctx)
 
